@@ -1,0 +1,69 @@
+//go:build verif
+
+package main
+
+import (
+	"mltwist/internal/consoleui"
+	"os"
+	"time"
+)
+
+// fmt <indent> <width> <hex of s>  =>  <hex of format(s, indent, width)> | PANIC | DIVERGES
+//
+// format does not terminate when chars = width - 8*indent is 0 and s contains a
+// byte other than ' ': every round writes an empty line, the index i stays on
+// the first non-space byte and the strings.Builder grows until the process runs
+// out of memory (an unrecoverable fatal error, not a panic). These inputs are
+// never handed to format; the op answers DIVERGES for exactly this parameter
+// set (worked out by reading format.go and confirmed once with a bounded run,
+// see /verif/incoming/s29/NOTES.md). Everything else terminates: chars >= 1
+// consumes at least one byte per round, chars < 0 panics in the first round,
+// chars = 0 on an all-space text ends after one round.
+//
+// Watchdog: should a later revision of format loop on some other input, the
+// call is abandoned after one second and the harness exits with status 3
+// without answering the line (a runaway goroutine cannot be stopped and would
+// exhaust the memory). vcheck/core.py then records the line as CRASH and
+// restarts the harness on the remaining lines; the driver judges CRASH within
+// the precondition as a failure of the property (no termination).
+func init() {
+	register("fmt", func(t *tokens) string {
+		indent := t.int()
+		width := t.int()
+		s := t.hex()
+		if indent < -1000 || indent > 1000 || width < -100000 || width > 100000 || len(s) > 1<<16 {
+			panic(parseError("fmt parameters out of the harness range"))
+		}
+		chars := width - indent*8
+		if chars == 0 {
+			for _, c := range s {
+				if c != ' ' {
+					return "DIVERGES"
+				}
+			}
+		}
+		type answer struct {
+			out      string
+			panicked bool
+		}
+		ch := make(chan answer, 1)
+		go func() {
+			defer func() {
+				if r := recover(); r != nil {
+					ch <- answer{panicked: true}
+				}
+			}()
+			ch <- answer{out: consoleui.VerifFormat(string(s), indent, width)}
+		}()
+		select {
+		case a := <-ch:
+			if a.panicked {
+				return "PANIC"
+			}
+			return fmtHex([]byte(a.out))
+		case <-time.After(time.Second):
+			os.Exit(3)
+			return ""
+		}
+	})
+}
